@@ -172,6 +172,10 @@ type Client struct {
 	// resumech resumes subscription publish loop
 	resumech chan struct{}
 
+	// subsPaused is the requested state of the publish loop. pausech and
+	// resumech wake the loop up after it has changed.
+	subsPaused atomic.Bool
+
 	// mcancel stops subscription publish loop
 	mcancel func()
 
